@@ -858,6 +858,12 @@ class IsoHybrid:
         padding = 0
         if frac > 0:
             padding = cylsize - frac
+        if self.efi:
+            # The backup GPT (the partition entry array and the header) is
+            # written into the padding at the very end, so the padding must be
+            # large enough to hold it without touching the ISO itself.
+            while padding < GPT_SIZE * 512:
+                padding += cylsize
         cc = min((iso_size + padding) // cylsize, 1024)
 
         return (cc, padding)
